@@ -436,6 +436,16 @@ func validateSecurityRequirement(ctx context.Context, input *RequestValidationIn
 		securitySchemes = components.SecuritySchemes
 	}
 
+	// Before the request body is touched: every scheme of the requirement has to be declared
+	for _, name := range names {
+		if ref := securitySchemes[name]; ref == nil || ref.Value == nil {
+			return &RequestError{
+				Input: input,
+				Err:   fmt.Errorf("security scheme %q is not declared", name),
+			}
+		}
+	}
+
 	// NOTE that because we could have an `AuthenticationFunc` that reads the request body, we need to provide a fresh `io.Reader` to each iteration of the loop. To make this more performant, we can read the request body once into memory (which may be costly) and then create a fresh `io.Reader` for each `AuthenticationFunc`
 	var data []byte
 
